@@ -56,11 +56,33 @@ def run(ctx):
     cases = []
     while len(cases) < n:
         g = S.Gen(rng, FEATURES)
-        sh = g.sheet(nunits=rng.choice([1, 2, 3]), depth=rng.randint(1, 3))
+        k = rng.random()
+        if k < 0.3:
+            gm = S.Gen(rng, ['media', 'amp', 'attr', 'istr'])
+            sh = gm.mixin_program()
+        else:
+            sh = g.sheet(nunits=rng.choice([1, 2, 3]), depth=rng.randint(1, 3))
+        if k < 0.5:
+            # calls that yield nothing (guard not satisfied, empty mixin, unknown mixin) next to local variable definitions, local
+            # variables only, calls only: such rules have nothing to print (raw text units: this check needs no node tree)
+            extra = ['.gq(@x) when (@x > 5) { width: @x }\n', '.nothing() {}\n']
+            for j in range(rng.randint(1, 4)):
+                body = []
+                for _ in range(rng.randint(1, 3)):
+                    body.append(rng.choice(['@w: %d;' % rng.choice([1, 3, 9, 12]), '.gq(@w);', '.gq(%d);' % rng.choice([2, 7]), '.nothing();', '.no-such-mixin();', '@k: 2px;']))
+                if '.gq(@w);' in body and not any(b.startswith('@w') for b in body):
+                    body.insert(0, '@w: %d;' % rng.choice([1, 9]))
+                body.sort(key=lambda b: 0 if b.startswith('@') else 1)
+                sel = rng.choice(['.e%d' % j, '.e%d .in' % j, 'p.e%d, .f%d' % (j, j)])
+                inner = ' '.join(body)
+                extra.append(rng.choice(['%s { %s }\n' % (sel, inner), '.o%d { color: red; %s { %s } }\n' % (j, sel, inner), '@media print { %s { %s } }\n' % (sel, inner)]))
+            rng.shuffle(extra)
+            for e in extra:
+                sh.insert(rng.randint(0, len(sh)), ('stmt', [e]))
         if S.sel_count(sh) > 30:
             continue
         cases.append({'sheet': sh, 'text': S.show(sh, S.Layout(rng)), 'o1': rng.choice(SC.ALL_OPTS), 'o2': rng.choice(SC.ALL_OPTS),
-                      'classes': P.classes_of(sh)})
+                      'classes': P.classes_of(sh, recompiled=True)})
     corpus = sorted(glob.glob(os.path.join(impl.REPO, 'test/less/*.less')) + glob.glob(os.path.join(impl.REPO, 'test/less/issues/*.less')))
     excluded = []
     with impl.Pool() as pool:
